@@ -8,12 +8,12 @@ def register(add, PENDING):
                   "tmpfs as the disk, and the crash model 'process death' (completed system calls are durable; power loss is not modelled because the code never fsyncs and the property does not claim it).")
     add("C23", "fault_enumeration", "deterministic fault injection at the system-call seam: every call of the publish/rollback sequence failed or turned into process death, singly and in adaptive pairs, plus seeded multi-run histories and full-pipeline runs",
         "DESIGN.md 6, 9/C23",
-        "Complete enumeration of single faults (crash, short write, 11 errnos) and adaptive fault pairs over every system call of the real publish routine from five initial states, judged on the real directory tree after each child exit (no mix, no lost copy, success reported iff live, failed generation leaves nothing behind, progress after faults); seeded histories of several builder runs over accumulated debris and runs of the full generate_all_circuit_binaries pipeline are sampled.",
+        "Complete enumeration of single faults (crash, short write, 11 errnos) and adaptive fault pairs over every system call of the real publish routine from five initial states, judged on the real directory tree after each child exit (no mix, no lost copy, success reported iff live, failed generation leaves nothing behind, progress after faults); seeded histories of several builder runs over accumulated debris are sampled; through the public generate_all_circuit_binaries entry point every rename of the publish phase is failed, failed together with the following call, and crashed at (enumerated), and further single and double faults in the generation and publish phases are sampled.",
         STORE_NOTE)
 
     add("C16", "fault_enumeration", "storage-fault injection on padding-template files (misdirected valid proofs, edited public inputs, flips, truncation, stale/wrong-layer files) x every entry point, each booted in a child process",
         "DESIGN.md 6, 9/C16",
-        "Every constructor, loader, aggregator init and build stage that accepts a padding template is booted once per template fault; the template on disk is judged by the harness's own predicate (deserialises, sentinel at the documented offsets, accepted by the canonical verifier) and anything failing it must be refused, a refusing build stage must write nothing, and the genuine template must be accepted (precondition). Quick runs every valid-but-wrong proof and a seeded third of the other faults for shape (1,1); thorough runs all faults plus seeded positions for three shapes.",
+        "Every constructor, loader, aggregator init and build stage that accepts a padding template is booted once per template fault; the template on disk is judged by the harness's own predicate (deserialises, sentinel at the documented offsets, accepted by the canonical verifier) and anything failing it must be refused, a refusing build stage must write nothing, and the genuine template must be accepted (precondition). Valid-but-wrong proofs include one verifying foreign dummy per single non-zero sentinel limb (asset id, each limb of either exit account), the only way a validator that skips one felt becomes observable. Quick runs every valid-but-wrong proof and a seeded quarter of the other faults for shape (1,1); thorough runs all faults plus seeded positions for three shapes.",
         STORE_NOTE)
     add("C17", "fault_enumeration", "storage faults at rest and I/O faults at load time on artifact files x every loader, reads observed at the libc seam (which files were opened, how many bytes were read)",
         "DESIGN.md 6, 9/C17",
@@ -31,10 +31,10 @@ def register(add, PENDING):
         "Trusted: the harness allocator (with a built-in canary that must be caught in every run and a reach probe on the exempt upstream block), zero-on-alloc while simulating, typed exactly-sized boxes for pooled objects so the harness itself never moves a secret out of a heap slot. Stack copies and plonky2's PartialWitness are out of scope as in sensitive.rs.")
 
     REAL_NOTE = ("Trusted: the harness (world generation, native oracles, network model), plonky2 proving/verification, the canonical public-batch verifier rebuilt from the working tree as 'the chain', the guarded RNG wrapper and witness accessors. "
-                 "Every circuit, artifact and proof is real; N, M in {1,2}. Proof bytes differ run to run (ZK blinding), public inputs do not; logs and oracles use public inputs only.")
-    add("C18", "exploration", "multi-party simulation in real mode: two aggregators with different addresses exchange real public-batch proofs over a faulty network; each proof checked at the chain, its producer and the other miner, as is and corrupted in flight",
+                 "Every circuit, artifact and proof is real; shapes (N,M): (2,2) and (1,1) quick, up to (4,2)/(2,3) thorough; the first run of every shape uses a forced split that pads at both layers. Proof bytes differ run to run (ZK blinding), public inputs do not; logs and oracles use public inputs only.")
+    add("C18", "exploration", "multi-party simulation in real mode: two aggregators with different addresses (plus observer aggregators with structurally related addresses) exchange real public-batch proofs over a faulty network; each proof checked at the chain, its producer, the other miner and every observer, as is and corrupted in flight",
         "DESIGN.md 5.4 O-address, 9/C18",
-        "Seeded runs of the whole pipeline with real proofs: every proof ProvingContext::prove_batch returns must verify under the canonical verifier rebuilt from source and expose the configured address; the other aggregator (random address, address differing in one felt, or the all-zero address) must reject it although it is valid; copies with the address felts swapped for the receiver's, a flipped felt, or a shortened/lengthened public-input vector must be rejected without panicking.",
+        "Seeded runs of the whole pipeline with real proofs: every proof ProvingContext::prove_batch returns must verify under the canonical verifier rebuilt from source and expose the configured address; the other aggregator (random address, address differing in one felt, or the all-zero address) and fifteen observer aggregators per shape whose addresses are structurally related to the producer's (one byte of one limb changed, only one limb shared, limbs rotated or reversed, all-zero) must reject it although it is valid; copies with the address felts swapped for the receiver's, a flipped felt, or a shortened/lengthened public-input vector must be rejected without panicking.",
         REAL_NOTE)
     add("C36", "exploration", "multi-party simulation in real mode: clients, pool, two proving layers and chain on honest inputs, with a native conservation oracle fed by the RNG seam",
         "DESIGN.md 5.4 O-conservation, 9/C36",
